@@ -81,15 +81,44 @@ func vpH_C06_visit() {
 	exp := vpBuildExpect(held, vpFieldNames(held))
 	cnt := len(held)
 	vpAssert(seg.Count() == uint64(cnt), "Count")
-	// one visit with any target and any stop point, then a second visit of a
-	// neighbouring document through the same segment (block cache state)
-	n := vpChoice("visit", cnt+2)
+	// one visit whose document number is symbolic (every uint64 < 2^62: the
+	// solver splits it into the documents of the segment and "beyond Count"),
+	// with any stop point; then a second visit of a neighbouring document through
+	// the same segment (block cache state)
+	ns := vpRange("visit.sym", 0, 1<<62)
 	stop := vpChoice("stop", 3) - 1
+	var got []vpXStored
+	calls := 0
+	err := seg.VisitStoredFields(ns, func(field string, value []byte) bool {
+		calls++
+		got = append(got, vpXStored{field, append([]byte(nil), value...)})
+		return stop < 0 || calls <= stop
+	})
+	vpMust(err, "VisitStoredFields(symbolic n)")
+	n := cnt // concrete image of ns: cnt = beyond the last document
+	for k := 0; k < cnt; k++ {
+		if ns == uint64(k) {
+			n = k
+			break
+		}
+	}
 	var want []vpXStored
 	if n < cnt {
 		want = exp.stored[n]
+	} else {
+		vpReach("C06 symbolic visit beyond Count")
 	}
-	vpVisitCheck("visit", seg, uint64(n), want, stop)
+	limit := len(want)
+	if stop >= 0 && stop+1 < limit {
+		limit = stop + 1
+	}
+	vpAssert(len(got) == limit, "visit: number of stored values delivered")
+	if len(got) == limit {
+		for i := range got {
+			vpAssert(got[i].field == want[i].field, "visit: stored field name/order")
+			vpAssert(vpBytesEq(got[i].value, want[i].value), "visit: stored value bytes")
+		}
+	}
 	n2 := 0
 	if cnt > 0 {
 		n2 = (n + 1) % cnt
